@@ -9,7 +9,7 @@ ID = 'C03'
 LEVEL = 'exploration'
 RULE = ('Hypothesis draws a server configuration and a history (<=30/60 actions) of opens, polls '
         '(pending, late, overlapping), application send() calls with uniquely tagged text/JSON/'
-        'binary payloads, every prefix of the probe handshake (correct and wrong frames, closes, '
+        'binary payloads (singly or in bursts of 15..40), polling clients that are plain, JSONP (j=<n>, d= posts) or ask for compressed answers, every prefix of the probe handshake (correct and wrong frames, closes, '
         'faults), pongs, clock advances relative to the next deadline, with or without settling '
         'between actions (thread world: scheduler picks drawn too); executed against the real '
         'Server (baton-scheduled threads) or AsyncServer (virtual-time loop). Oracle: per session '
